@@ -304,7 +304,7 @@ def deep_compare(obj1: Any,
                         if not isinstance(value2, bool):
                             return -1
                         elif value1 is not value2:
-                            return -1 if value1 else 1
+                            return 1 if value1 else -1  # false precedes true
 
                     elif isinstance(value2, bool):
                         return -1
@@ -340,7 +340,7 @@ def deep_compare(obj1: Any,
 
                     elif isinstance(value2, float):
                         if math.isnan(value2):
-                            return -1
+                            return 1  # NaN precedes all the other values
                         elif math.isinf(value2):
                             if value1 != value2:
                                 return -1 if value1 < value2 else 1
